@@ -484,10 +484,10 @@ fn apply_fault(ctx: &mut Ctx, plan: &Plan, arm: &ArmInfo, framing: Framing, segs
                 }
             }
         }
-        MFault::Garbage { rec, bytes } => {
+        MFault::Garbage { rec, bytes, forged } => {
             if let Some(s) = segs.get_mut(*rec) {
                 if !s.dropped && s.bytes != *bytes {
-                    ctx.fire("M-GARBAGE");
+                    ctx.fire(if *forged { "M-FORGE" } else { "M-GARBAGE" });
                     ctx.event_bytes("M-GARBAGE", bytes);
                     s.bytes = bytes.clone();
                     s.damaged = true;
